@@ -205,6 +205,20 @@ def malformed_value_faults(cfg, rng, limit=24):
             variants = [v[:q] + 'G' + v[q + 1:] for q in (2, 9, len(v) - 1)] + [v[:-1], v + '0', v[2:]]
         for b in variants[:2] if key != 'unique-id' else variants:
             out.append(('malformed-value', f'{("board", "track", "train")[fi]}:{key or "list"}:{v}->{b}', ('text', fi, li, pre + (key + ': ' if key else '') + b)))
+    # a number far outside the range of its field whose low bits are the legal value it replaces (2^32 + v, 2^64 + v): not that value
+    seen_keys = set()
+    for (fi, li, pre, key, v) in cands:
+        if key in ('unique-id', 'dcc-address') or (fi, key) in seen_keys:
+            continue
+        seen_keys.add((fi, key))
+        try:
+            iv = int(v, 16) if v.lower().startswith('0x') else int(v)
+        except ValueError:
+            continue
+        wide = v.lower().startswith('0x') and len(v) > 4          # 0xHHLL: two bytes
+        for sh, big in (('wrap32', iv + (1 << 32)), ('wrap64', iv + (1 << 64))) + ((('wrap8', iv + 256),) if not wide else (('wrap16', iv + 65536),)):
+            b = hex(big) if v.lower().startswith('0x') else str(big)
+            out.append(('malformed-value', f'{("board", "track", "train")[fi]}:{key or "list"}:{v}->{b}/{sh}:{key or "list"}', ('text', fi, li, pre + (key + ': ' if key else '') + b)))
     return out
 
 def apply_fault(cfg, f):
